@@ -3,7 +3,9 @@
    configuration generation does when it is brought up / shut down) and ALL finite label sequences
    ls (external events, Shutdown() calls whole or split in halves, sections of Run with every
    choice of ready select branch): run o init ls = (final state, action log). *)
-From Verif Require Import Common.Base C20.Model C20.Proofs1 C20.Proofs2 C20.Proofs3.
+From Verif Require Import Common.Base C20.Model C20.Proofs1 C20.Proofs2 C20.Proofs3 C20.Proofs4.
+(* obligations tying the model's State codes / names / GetState / method set to the translated Go source *)
+From Verif Require C20.Tie.
 
 (* ---- Starting -> Running -> Closing -> Closed --------------------------------------------------- *)
 (* The sequence of setCollectorState values is a word of the automaton [pdelta]:
@@ -174,12 +176,15 @@ Proof. exact recover_exercised_l. Qed.
    others as blocked provider goroutines) and senders on asyncErrorChannel form FIFO queues: a label
    either leaves the queue alone, appends to it, or — only Run, in the select, taking that branch —
    removes the HEAD and acts on it (watch error / async error: shutdown(); change: reload).  So a
-   watch error sent right behind a pending change is still there when the reload is over. *)
+   watch error sent right behind a pending change is still there when the reload is over.  The one
+   exception is the third case: shutdown() closes the watcher channel, which kills the blocked
+   senders (see orderly_shutdown_refuted). *)
 Theorem pending_notifications_never_dropped : forall o s l,
   let s' := fst (step o s l) in
   ((exists x, st_watch s' = st_watch s ++ x) \/
    (l = LRun BrWatch /\ st_pc s = PSelect /\
-    exists e, st_watch s = e :: st_watch s' /\ st_pc s' = (if e then PFinal false else PReload))) /\
+    exists e, st_watch s = e :: st_watch s' /\ st_pc s' = (if e then PFinal false else PReload)) \/
+   (exists b bg, l = LRun b /\ st_pc s = PFinal bg /\ st_watch s' = firstn 1 (st_watch s))) /\
   ((exists x, st_async s' = st_async s ++ x) \/
    (l = LRun BrAsync /\ st_pc s = PSelect /\ exists e, st_async s = e :: st_async s' /\ st_pc s' = PFinal false)).
 Proof. exact (fun o s l => conj (watch_fifo_l o s l) (async_fifo_l o s l)). Qed.
@@ -198,6 +203,57 @@ Theorem each_provider_shut_down_exactly_once : forall t o ls,
   (forall s log k, run o init ls = (s, log) -> st_pc s = PDone k -> k <> DStopped ->
      forall p, pcount (is_pshut p) (expand t log) = 0).
 Proof. exact each_provider_once_l. Qed.
+
+(* ---- close(mr.watcher) under a blocked provider goroutine ---------------------------------------------- *)
+(* PARTIAL: in a history in which at most one watcher notification is pending at any time, no
+   provider goroutine panics. *)
+Theorem orderly_shutdown_partial : forall o ls s,
+  (forall l1 l2, ls = l1 ++ l2 -> length (st_watch (fst (run o s l1))) <= 1) ->
+  count is_sender_panic (snd (run o s ls)) = 0.
+Proof. exact (fun o ls s => no_sender_panic_l o ls s). Qed.
+
+(* exactly which section produces how many panics *)
+Theorem sender_panics_per_step : forall o s l,
+  count is_sender_panic (snd (step o s l)) =
+  match l, st_pc s with LRun _, PFinal _ => pred (length (st_watch s)) | _, _ => 0 end.
+Proof. exact step_panics. Qed.
+
+(* REFUTED in general (finding C20-WATCH-SEND-ON-CLOSED): Resolver.Shutdown closes the watcher channel
+   while a provider goroutine is still blocked in onChange behind a pending notification; that
+   goroutine panics with "send on closed channel".  The run itself reaches Closed and returns — the
+   process dies in the provider's goroutine. *)
+Theorem orderly_shutdown_refuted :
+  exists o ls, let s := fst (run o init ls) in let log := snd (run o init ls) in
+    In (ASetState Running) log /\ st_pc s = PDone DStopped /\ st_phase s = Closed /\
+    count is_sender_panic log = 1.
+Proof. exact orderly_shutdown_refuted_l. Qed.
+
+(* ---- liveness, as far as a model of finite runs can say it ------------------------------------------------ *)
+(* RANKING FUNCTION.  Every enabled section of Run strictly decreases Model.mu (4 x number of queued
+   signals / notifications / async senders + a weight of the program counter) ... *)
+Theorem run_section_decreases_measure : forall o s b,
+  enabled s (LRun b) = true -> mu (fst (step o s (LRun b))) < mu s.
+Proof. exact run_step_decreases. Qed.
+
+(* ... an external label raises it by at most 4: Run executes at most mu s + 4 x (number of later
+   injections) sections — it cannot stay busy for ever on finitely many events ... *)
+Theorem external_label_raises_measure_by_4 : forall o s l,
+  is_run l = false -> mu (fst (step o s l)) <= mu s + 4.
+Proof. exact env_step_raises_by_4. Qed.
+
+(* ... and with a sticky stop request pending (shutdown channel closed or context cancelled) any
+   sequence of enabled sections has at most mu s members, and when none is enabled any more Run has
+   returned (or is deadlocked: ends_closed_refuted) — it cannot come to rest in the select.  Hence
+   the only way a pending stop request is never honoured is an infinite stream of reload requests
+   each of which the select prefers to it; a weakly fair select (Go's is uniformly random) excludes
+   that, but infinite runs and fairness are outside this finite-run model (NOTES.md). *)
+Theorem stop_request_ends_run : forall o s bs,
+  st_chan_closed s = true \/ st_ctx_done s = true ->
+  run_enabled o s bs = true ->
+  let s' := fst (run o s (map LRun bs)) in
+  length bs <= mu s /\
+  ((forall b, enabled s' (LRun b) = false) -> (exists k, st_pc s' = PDone k) \/ st_pc s' = PStuck).
+Proof. exact stop_pending_ends_run_l. Qed.
 
 Print Assumptions phase_order.
 Print Assumptions phase_order_in_words.
@@ -218,3 +274,13 @@ Print Assumptions shutdown_idempotent_safe.
 Print Assumptions recover_guard_is_exercised.
 Print Assumptions pending_notifications_never_dropped.
 Print Assumptions each_provider_shut_down_exactly_once.
+Print Assumptions orderly_shutdown_partial.
+Print Assumptions sender_panics_per_step.
+Print Assumptions orderly_shutdown_refuted.
+Print Assumptions run_section_decreases_measure.
+Print Assumptions external_label_raises_measure_by_4.
+Print Assumptions stop_request_ends_run.
+Print Assumptions Tie.state_codes_are_the_go_constants.
+Print Assumptions Tie.state_names_are_the_go_strings.
+Print Assumptions Tie.observed_state_is_the_stored_word.
+Print Assumptions Tie.collector_api_is_the_modelled_one.
